@@ -39,18 +39,16 @@ def _solve_one(job):
                         except Exception:
                             pass
         else:
-            # second strategy: nonlinear tactic pipeline
-            try:
-                g = z3.Goal()
-                g.add(z3.parse_smt2_string(smt2))
-                t = z3.TryFor(z3.Then('simplify', 'propagate-values', 'solve-eqs', 'smt'), timeout_ms)
-                s2 = t.solver()
-                s2.add(g.as_expr())
-                r2 = s2.check()
-                if r2 == z3.unsat:
-                    res, solver = 'proved', 'z3/solve-eqs'
-            except Exception:
-                pass
+            # retry once with another seed (instability, not incompleteness, is the usual cause)
+            s2 = z3.Solver()
+            s2.set('timeout', timeout_ms)
+            s2.set('random_seed', 7)
+            s2.from_string(smt2)
+            r2 = s2.check()
+            if r2 == z3.unsat:
+                res, solver = 'proved', 'z3(seed 7)'
+            elif r2 == z3.sat:
+                res, solver = 'refuted', 'z3(seed 7)'
     except Exception as e:
         res = 'unknown'
         model = {'error': str(e)[:300]}
